@@ -29,28 +29,31 @@ MANIFEST = {
             "RecursionError). The model is tied to the code by translator/uml.py (branch conditions, template filters, file-name dictionaries, "
             "template directory listing regenerated from umlgen.py) and by differential runs on the shipped diagrams and mutants of them "
             "(GetOperationPerVisibility vs ops_of with the theorem's fuel, generated file set vs files_of and vs Spec.expected_files).",
-    "adaptor": "INPUT ADAPTOR (project file -> class diagram objects), now modelled: Model/UmlBlob.v = vppfs.ParseBLOB_Recursive / "
-               "Get_ValuesFromOutside, vppclassdiagram's Class / ClassOperation / ClassAttribute / Package / Inheritance / Association parsing, "
-               "namespaces from the package chain, ExtractClassDiagram, and LanguageCPP's GetTypeAndNameFromMultiplicityAndModifier / "
-               "GetDefaultFormatFromMultiplicityAndModifier / Class.GetContainerMultiplicityType; adaptor d name = the cdiagram the generator model "
-               "consumes. THEOREMS: C19_adaptor_text_transparent (for every structured blob in the stated domain -- plain keys, values, ids; no free "
-               "text with braces or separators; no apostrophe -- parsing str(print) gives exactly the dictionary the blob stands for: composition of "
-               "the stack-machine theorem parse_blob_sem, the field theorem values_segments and mass_repr), C19_adaptor_roundtrip_partial (hence "
-               "loading the project that the ASSUMED writer encode_cdiagram produces equals loading from those dictionaries: the text layer is "
-               "transparent), C19_adaptor_others_no_influence (whatever a diagram's own rows give, every project that hosts them gives: rows of other "
-               "diagrams, in any order, have no influence), C19_adaptor_visibilities (every cdiagram the adaptor returns has public/protected/private "
-               "operations only, so wf_vis needs no hypothesis and K-C19-4 cannot arise from a project file), C19_files_from_project / "
-               "C19_decl_def_from_project / C19_realised_from_project (the generator theorems stated from the project rows), C19_adaptor_calibration "
-               "(the assumed writer reproduces every row of both shipped class diagrams byte for byte; 78 of their 88 blobs lie in the domain of the "
-               "text theorem), C19_adaptor_source_shape (every string literal of the modelled functions pinned), C19_adaptor_name_refuted (operator< "
-               "is read as operator). WRITER ASSUMPTION: Model/UmlWriter.v (structured blobs: fields, reference lists, owned elements, in any order). "
-               "NOT a theorem: that the dictionaries of a SEMANTIC class (name, flags, operations ...) are turned into exactly that class by the object "
-               "builders (tied by differential runs only: shipped diagrams, synthesised projects written from object graphs and read back, damaged "
-               "projects with agreeing exceptions).",
+    "adaptor": "INPUT ADAPTOR (project file -> class diagram objects), modelled in Model/UmlBlob.v (vppfs.ParseBLOB_Recursive / Get_ValuesFromOutside, "
+               "vppclassdiagram's Class / ClassOperation / ClassAttribute / Package / Inheritance / Association parsing, namespaces from the package "
+               "chain, ExtractClassDiagram, LanguageCPP's type / name / default rendering helpers). THEOREMS: C19_adaptor_roundtrip -- for EVERY semantic "
+               "class diagram D (Model/UmlSem.v: classes with stereotypes, abstract flag, documentation, operations with visibility / return type / "
+               "modifier / abstract / query / static and parameters with basic or referenced type, direction, modifier, default, multiplicity, "
+               "attributes, enumeration literals; packages with member paths; generalisations / realisations; other shapes; referenced elements; every "
+               "element's properties in ANY order between any noise properties) in the domain sdiagram_ok (extracted, evaluated on every generated "
+               "diagram): adaptor (encode_project D) = Some (cdiagram_of D), object for object (C19_adaptor_roundtrip_objects: load = rdiagram_of D: "
+               "names, namespaces from the package chain, stereotype flags, visibility, parameters, realisation vs generalisation, the shapes of the "
+               "selected diagram), and from ANY project hosting D's rows (C19_adaptor_roundtrip_hosted; C19_adaptor_others_no_influence). "
+               "C19_files_from_diagram / C19_decl_def_from_diagram / C19_realised_from_diagram: the generator theorems from D through the project file. "
+               "Underneath: C19_adaptor_text_transparent (ParseBLOB_Recursive o str(bytes) o print = the dictionary a structured blob stands for: "
+               "stack machine + field segments + mass_replace), C19_adaptor_roundtrip_partial (dictionary-level read-back for every structured class "
+               "diagram, associations included), C19_adaptor_visibilities (wf_vis for everything read from a project file), C19_adaptor_calibration "
+               "(the structured writer reproduces every row of both shipped class diagrams byte for byte), C19_adaptor_source_shape (literal pins), "
+               "C19_adaptor_name_refuted (operator< is read as operator). WRITER ASSUMPTION: Model/UmlWriter.v + Model/UmlSem.v tree_of (how Visual "
+               "Paradigm lays a class diagram out), calibrated on the one shipped project at the structured-blob level. STILL PARTIAL: association ends "
+               "are not in the semantic domain (only the dictionary-level theorem covers them); values containing ',' (e.g. the default "
+               "'nullptr, nullptr') and free text with braces / separators (HTML documentation, K-C19-6) are outside sdiagram_ok. TIES: the extracted "
+               "writer encode_project writes project files that the REAL ExtractClassDiagram reads, compared field for field with the extracted "
+               "rdiagram_of inside the domain; the Coq printer vs its Python twin tree by tree; parser / rendering helpers function level; damaged "
+               "projects with agreeing exceptions; a share of the cases generated through Generate.UML from a synthesised project file.",
     "note": "Trusted: Coq kernel, extraction, translators uml.py / umlblob.py / vpp.py, sqlite3, CPython str methods and bytes.__repr__ (tied by "
-            "execution). The Visual Paradigm writer for class diagrams is an ASSUMPTION calibrated on the one shipped project. The step from the "
-            "parsed dictionaries to Class/Operation objects is modelled and differentially tied but its read-back theorem is stated only at the "
-            "dictionary level (C19_adaptor_roundtrip_partial). 'Accepted by a C++ compiler' is an observation (g++ 14 -fsyntax-only), not a theorem. "
+            "execution). The Visual Paradigm writer for class diagrams is an ASSUMPTION calibrated on the one shipped project. Association ends "
+            "are read back only at the dictionary level (C19_adaptor_roundtrip_partial); everything else of a class diagram by C19_adaptor_roundtrip. 'Accepted by a C++ compiler' is an observation (g++ 14 -fsyntax-only), not a theorem. "
             "C#: file set and crash observation only (no C# compiler). Known findings K-C19-*.",
 }
 MANIFEST["text"] += " " + MANIFEST.pop("adaptor")
@@ -60,14 +63,14 @@ RULE = ("the two shipped class diagrams and mutants of them (1-4 random edits of
         "generator produced at least one class with operations; distinct = distinct (diagram, edits, options)")
 ASSUMPTIONS = [
     "operation visibilities are public/protected/private: a theorem for every diagram read from a project file (C19_adaptor_visibilities); a 'package' operation exists only in in-memory mutants (K-C19-4)",
-    "adaptor: names, values and ids are plain text (printable ASCII without = < > ; \\ \" ' ( ) , and without leading/trailing blanks), no ':' in ids/names/types of element headers, free text without braces and separators (K-C19-6 outside)",
+    "adaptor (sdiagram_ok): names, values and ids are plain text (printable ASCII without = < > ; \\ \" ' ( ) , { } and without leading/trailing blanks), no ':' in ids and element names, noise keys not among the reader's keys, no property key written twice, type names unchanged by CleanModifiersFromType, referenced ids known, every element drawn once, a class on at most one package path; no association shapes; free text without braces and separators (K-C19-6 outside)",
     "no realisation cycle among pure virtual interfaces (C19_cycle_refuted: RecursionError otherwise)",
     "files_hyp: class names non-empty without '.' and '/', namespace not ending in a separator, distinct output paths (two classes of one name in different packages collide when namespace folders are off: K-C19-5 is exactly distinct_paths = false)",
     "multiplicity 1 of a definition needs distinct signatures per class: an operation reached through two realisation paths is emitted twice (K-C19-1b); an operation both declared in the class and realised is emitted once since the fix (K-C19-1)",
     "no inheritance entry points to a class outside the diagram (closed; KeyError otherwise)",
 ]
 TRUSTED = ["Coq 8.16.1 kernel (coqc; coqchk in the thorough tier)", "axioms: none", "translator/uml.py, translator/umlblob.py", "extraction: ExtrOcamlBasic + ExtrOcamlNativeString",
-           "assumed, not kojen code: the Visual Paradigm writer for class diagrams (Model/UmlWriter.v), calibrated on the shipped project",
+           "assumed, not kojen code: the Visual Paradigm writer for class diagrams (Model/UmlWriter.v structured blobs + Model/UmlSem.v tree_of), calibrated on the shipped project at the structured-blob level",
            "modelled, not verified: sqlite3 row order / PRIMARY KEY, CPython str methods, bytes.__repr__, int() on multiplicities (ASCII digits, sign, blanks only)",
            "harness/umlblob.py: Python twin of the writer (objects -> structured blobs -> bytes) used to synthesise project files; its output is read by the real adaptor and by the model",
            "harness tokenizer for generated .h/.cpp (line based)", "g++ 14 for 'accepted by a C++ compiler'"]
@@ -372,6 +375,82 @@ def adaptor_ties(ctx):
         ctx.count("adaptor_malformed_%s" % ("loads" if real else "rejected"))
 
 
+def printer_tie(ctx):
+    """tree by tree: the Coq printer UmlWriter.print_node (the assumed writer the theorems speak about) against its Python twin
+    (translator/umlblob.print_node, used by harness/umlblob.py to synthesise project files) and against the stored bytes"""
+    from translator import umlblob as tu
+    db = ub.read_rows(vs.BLOB_XML)
+    n = 0
+    for m in db[2]:
+        if ctx.quick and n >= 150:
+            break
+        try:
+            tree = tu.read_blob(m[4])
+        except Exception:  # noqa -- a blob outside the structured grammar (not needed by the class diagrams)
+            ctx.count("printer_tie_unstructured_blob")
+            continue
+        n += 1
+        coq = ctx.km.call("ub_print_node", ub.tree_v(tree))
+        if coq != m[4] or tu.print_node(tree) != m[4]:
+            ctx.tie_broken("UmlWriter.print_node / its Python twin do not reproduce a shipped blob", {"id": m[0]})
+        ctx.count("printer_tie_shipped_blobs")
+    for i in range(ctx.budget(6, 60)):
+        cd = us.load(us.DIAGRAMS[i % 2])
+        r2 = random.Random(ctx.rng.randint(0, 1 << 30))
+        try:
+            us.mutate(r2, cd, r2.randint(0, 3))
+            ub.project_rows(r2, cd)
+        except Exception:  # noqa
+            continue
+        for tree in ub.LAST_TREES:
+            if ctx.km.call("ub_print_node", ub.tree_v(tree)) != tu.print_node(tree):
+                ctx.tie_broken("correspondence UmlWriter.print_node vs the Python writer twin on a synthesised blob", {"id": tree[1]})
+            ctx.count("printer_tie_synthesised_blobs")
+    ctx.case(("printer-tie",))
+
+
+def semantic_ties(ctx):
+    """C19_adaptor_roundtrip observed on the real adaptor: semantic diagrams (built from the shipped object graphs and mutants of
+    them) are written by the EXTRACTED Coq writer encode_project, stored as SQLite project files and read by the real
+    vppclassdiagram.ExtractClassDiagram; inside the theorem's domain (sdiagram_ok evaluated by the extracted predicate) the objects
+    must equal the extracted specification rdiagram_of, field for field, ids included"""
+    km = ctx.km
+    for i in range(ctx.budget(24, 300)):
+        seed = ctx.rng.randint(0, 1 << 30)
+        rng = random.Random(seed)
+        cd = us.load(us.DIAGRAMS[i % 2])
+        try:
+            if i >= 2:
+                us.mutate(rng, cd, rng.randint(1, 3))
+            S, name = ub.semantic_value(rng, cd)
+        except ub.Unencodable as e:
+            ctx.count("semantic_unencodable:" + str(e).split(" ")[0])
+            continue
+        except Exception:  # noqa
+            ctx.count("semantic_mutator_failed")
+            continue
+        ok = km.call("us_ok", S) == b"1"
+        db = vs.db_of_v(km.call("us_encode", S))
+        with kj.scratch("kjv-umlsem-") as d:
+            path = ub.project_path(d)
+            vs.write_project(path, db)
+            try:
+                real, _cd2, err = ub.real_load(path, name)
+            except ub.NotAString:
+                real, err = [], "a dict where a text belongs"
+        want = [km.call("us_rdiagram", S)]
+        ctx.case(("semantic", seed, i), nontrivial=ok and bool(real))
+        ctx.count("semantic_in_domain" if ok else "semantic_outside_domain")
+        if km.call("ub_load", vs.db_v(db), name) != real:
+            ctx.tie_broken("correspondence ExtractClassDiagram vs UmlBlob.load_cdiagram on a project written by encode_project", {"seed": seed, "i": i})
+        if ok and real != want:
+            ctx.violation("a semantic class diagram in the domain of C19_adaptor_roundtrip is not read back as written: %s" % err,
+                          {"finding_key": "uml-adaptor:semantic-roundtrip", "finding_class": "uml-adaptor", "semantic_seed": seed, "semantic_i": i,
+                           "label": us.DIAGRAMS[i % 2], "mut_seed": 0, "nedits": 0})
+        elif not ok:
+            ctx.count("semantic_outside_domain_%s" % ("agrees" if real == want else "differs"))
+
+
 def separator_probe(ctx):
     """outside the domain of the adaptor theorem (C19_adaptor_name_refuted): an operation called operator< in a project file"""
     cd = us.load("TestClassDiagram")
@@ -515,6 +594,8 @@ def run(ctx):
     derived_project_probe(ctx)
     if ctx.km is not None:
         adaptor_ties(ctx)
+        printer_tie(ctx)
+        semantic_ties(ctx)
     separator_probe(ctx)
     directed_probes(ctx)
     n = ctx.budget(60, 200)
